@@ -16,6 +16,9 @@ def run(tier, seed, work):
     quick = tier == "quick"
     mc = [("MC_Handover.tla", "MC_Handover_quick.cfg" if quick else "MC_Handover_thorough.cfg")]
     per, depth, nj = (2, 25, 12) if quick else (12, 40, 14)
-    groups = [("Trace_Handover.tla", "Trace_Handover_C09_full.cfg", hc.jobs("c09", seed + 8, per, depth, nj, mode="faults"))]
+    # faults: engine faults at every call site; mutations: proposals this node would refuse but others decided are finalised
+    # (NewEthBlock's own checks: parent, number, beacon root, proposer / recipient, blob gas) on a replica that crashes before Commit
+    groups = [("Trace_Handover.tla", "Trace_Handover_C09_full.cfg",
+               hc.jobs("c09", seed + 8, per, depth, nj, mode="faults") + hc.jobs("c09", seed + 9, per, depth, max(4, nj // 3), mode="mutations"))]
     return verif.run_stateful_check("C09", tier, seed, work, mc_list=mc, groups=groups, key_fn=hc.key,
                                     level="model_checking", assumptions=hc.ASSUME, rule=RULE)
